@@ -275,6 +275,15 @@ class Check:
         src = open(os.path.join(COQ, props)).read()
         names = re.findall(r"^(?:Theorem|Lemma)\s+([A-Za-z0-9_']+)", src, flags=re.M)
         self.obligations = len(names)
+        # tables regenerated from the Rust sources before anything is checked against them
+        if pid in ("C08", "C09", "C11"):
+            import translate_proto
+            try:
+                translate_proto.regenerate(REPO)
+            except (translate_proto.ShapeError, OSError) as e:
+                self.proof_broken("tools/translate_proto.py: the protocol sources no longer have the table shape the "
+                                  "translator accepts (%s): gen/ProtoTables.v cannot be regenerated" % e)
+                return False
         bad = grep_forbidden()
         if bad:
             self.proof_broken("forbidden constructs in the development: " + "; ".join(bad[:10]))
